@@ -88,6 +88,9 @@ class CellVariable:
         elif np.all(np.array(cell_value.shape)==mesh_struct.dims+2):
             # Values for ghost cells already included,
             # simply fill
+            if cell_value.dtype.kind in 'biu':
+                # integer-typed storage would truncate later assignments
+                cell_value = cell_value.astype(float)
             self._value = TrackedArray(cell_value)
         else:
             raise ValueError(f"The cell size {cell_value.shape} is not valid "\
